@@ -337,9 +337,49 @@ def item_handover(ctx, rng):
                      replay={"cell": sc["name"], "lattice": sc["lattice"].tolist(), "positions": sc["positions"].tolist(), "numbers": [int(x) for x in sc["numbers"]], "cutoff": {"2": cut}, "disps": d.tolist(), "forces": f.tolist()}, has_input=True)
 
 
+def solve_pairs(ctx, rng):
+    """Every ordered pair of solver combinations on ONE object (first in full or compact layout, then the second): the second result is
+    the one of a fresh object; supercells with more atoms than independent atoms."""
+    from solvers import COMBOS, Prepared
+
+    for cname, diag in [("tri2_P1", (2, 1, 1))] + ([] if ctx.quick else [("mono_P", (2, 1, 1)), ("tri1", (3, 1, 1))]):
+        P = Prepared(cname, diag, rng)
+        usable = [c for c in COMBOS if P.usable(c)]
+        ncoef = sum(P.nb[m] for m in (2, 3, 4) if P.nb.get(m))
+        n = 2 * int(np.ceil(ncoef / (3 * P.N))) + 10
+        d, f = rng.normal(size=(n, P.N, 3)) * 0.05, rng.normal(size=(n, P.N, 3))
+        fresh = {}
+        for second in usable:
+            try:
+                o = P.new(d, f)
+                o.solve(orders=list(second), is_compact_fc=False)
+                fresh[second] = {m: np.array(o.force_constants[m]) for m in second}
+            except np.linalg.LinAlgError:
+                pass
+        for first in usable:
+            for compact_first in (False, True):
+                for second in fresh:
+                    if second == first:
+                        continue
+                    o = P.new(d, f)
+                    try:
+                        o.solve(orders=list(first), is_compact_fc=compact_first)
+                        o.solve(orders=list(second), is_compact_fc=False)
+                    except np.linalg.LinAlgError:
+                        continue
+                    ctx.case({"cell": P.sc["name"], "first": list(first), "first_compact": compact_first, "second": list(second)}, nontrivial=True)
+                    ctx.count("solve-pairs")
+                    dev = max(float(np.abs(np.asarray(o.force_constants[m]) - fresh[second][m]).max() / max(np.abs(fresh[second][m]).max(), 1e-300)) for m in second)
+                    if dev > 1e-9:
+                        ctx.fail("oracle", "C12/oracle/solve-pairs", f"{P.sc['name']}: solve(orders={list(first)}, is_compact_fc={compact_first}) followed by solve(orders={list(second)}) differs from a fresh object's solve(orders={list(second)}) "
+                                 f"by {dev:.2e} (same dataset): the second solve depends on the first",
+                                 replay={**P.describe(), "first": list(first), "first_compact": compact_first, "second": list(second), "disps": d.tolist(), "forces": f.tolist()}, has_input=True)
+
+
 def check(ctx):
     rng = np.random.default_rng(ctx.seed)
     item_handover(ctx, np.random.default_rng(ctx.seed + 80))
+    solve_pairs(ctx, np.random.default_rng(ctx.seed + 83))
     from basisobj import check_basis_objects
     check_basis_objects(ctx, "C12", np.random.default_rng(ctx.seed + 77))
     from basisobj import check_handover_then_compute
